@@ -33,7 +33,7 @@ def _eq(v, s, neg=False):
     return ["not", a] if neg else a
 
 
-def template(rnd, cg, lits, gname=None, prefer=None):
+def template(rnd, cg, lits, gname=None, prefer=None, only=None):
     """returns (name, formula); `prefer`: a nonterminal (the requested start symbol) that quantifiers with match
     expressions should range over with high probability (the quantified type is then the tree's root)"""
     R = rt.reach(cg)
@@ -49,10 +49,14 @@ def template(rnd, cg, lits, gname=None, prefer=None):
              "bool_combo", "exists_len", "prefix", "random", "random", "nested_in", "nested_in_smt", "implication"]
     if num:
         kinds += ["toint", "toint", "toint_arith", "toint_pair"]
+        if any((R[n] - {n}) & set(nts) for n in num):
+            kinds += ["toint_and_part"] * 3
     if gname in ("lang", "blk"):
         kinds += ["defuse", "defuse"]
     if prefer:
         kinds += ["mexpr_children"] * 6
+    if only:
+        kinds = [x for x in kinds if x in only] or kinds
     k = pick(rnd, kinds)
     T = pick(rnd, nts)
     v = "v1"
@@ -82,6 +86,15 @@ def template(rnd, cg, lits, gname=None, prefer=None):
         op = pick(rnd, ["<", "<=", ">", ">=", "="])
         return k, [pick(rnd, ["forall", "forall", "exists"]), N, v, "start", None,
                    ["smt", [op, ["str.to.int", ["var", v]], ["int", rnd.randint(0, 60)]]]]
+    if k == "toint_and_part":
+        # a numeric condition on a numeral-valued node together with a condition on one of its parts (e.g. its leading
+        # digit): whatever value the solver finds for the number must keep the part as constrained
+        cands = [n for n in num if (R[n] - {n}) & set(nts)]
+        N = pick(rnd, cands)
+        D = pick(rnd, sorted((R[N] - {N}) & set(nts)))
+        cmp_ = ["smt", [pick(rnd, [">", ">", ">=", "<", "="]), ["str.to.int", ["var", "v1"]], ["int", pick(rnd, [5, 20, 100, 100, 250, 1000])]]]
+        part = _eq("v2", some_lit(D, "7"), chance(rnd, 0.25))
+        return k, ["and", ["forall", N, "v1", "start", None, cmp_], [pick(rnd, ["forall", "forall", "exists"]), D, "v2", "start", None, part]]
     if k == "toint_arith":
         N = pick(rnd, num)
         lhs = [pick(rnd, ["+", "-", "*"]), ["str.to.int", ["var", v]], ["int", rnd.randint(1, 4)]]
